@@ -28,7 +28,7 @@ Qed.
 
 (* the state an accepted migration leaves, by kind *)
 Definition with_discount (sl : slots) (t : N) : slots :=
-  mkSlots (Some t) (s_frozen_meta sl) (s_enable_updatable sl) (s_royalty_at sl) (s_legacy_minter sl) (s_owner sl) (s_status sl).
+  mkSlots (Some t) (s_frozen_meta sl) (s_enable_updatable sl) (s_royalty_at sl) (s_legacy_minter sl) (s_owner sl) (s_status sl) (s_mintable sl).
 
 Definition updatable_slots (now : N) (st : cstate) (v : version) : slots :=
   let sl := c_slots st in
@@ -39,7 +39,7 @@ Definition updatable_slots (now : N) (st : cstate) (v : version) : slots :=
           (if ver_ltb v (3, 1, 0) then Some (now - H24) else s_royalty_at sl)
           (if ver_ltb v (3, 0, 0) then None else s_legacy_minter sl)
           (if ver_ltb v (3, 0, 0) then s_legacy_minter sl else s_owner sl)
-          (s_status sl).
+          (s_status sl) (s_mintable sl).
 
 Definition expected (c : contract) (now : N) (msg : option fmsg) (st : cstate) (v : version)
   : result (cstate * bool) :=
@@ -253,6 +253,7 @@ Lemma state_preserved : forall c now msg st st' p,
     (if match kind_of c with KUpdatable => ver_ltb v (3, 0, 0) | _ => false end
      then s_legacy_minter sl else s_owner sl) /\
   s_status sl' = s_status sl /\
+  s_mintable sl' = s_mintable sl /\
   (p = true -> kind_of c = KFactory /\ msg <> None).
 Proof.
   intros c now msg st st' p H.
@@ -262,7 +263,7 @@ Proof.
     + inversion E; subst. repeat split; try reflexivity; discriminate.
     + destruct (ver_ltb v (3, 9, 0)).
       * destruct (H12 <=? now); [|discriminate]. inversion E; subst.
-        unfold set_version, with_discount; cbn [c_slots s_last_discount s_frozen_meta s_enable_updatable s_royalty_at s_legacy_minter s_owner s_status].
+        unfold set_version, with_discount; cbn [c_slots s_last_discount s_frozen_meta s_enable_updatable s_royalty_at s_legacy_minter s_owner s_status s_mintable].
         repeat split; try reflexivity; discriminate.
       * inversion E; subst. unfold set_version; cbn [c_slots]. repeat split; try reflexivity; discriminate.
   - destruct (ver_eqb v CODE); inversion E; subst; unfold set_version; cbn [c_slots];
@@ -272,7 +273,7 @@ Proof.
   - destruct (ver_ltb v (0, 16, 0)); [discriminate|].
     destruct (_ && _); [discriminate|]. destruct (_ && _); [discriminate|]. destruct (_ && _); [discriminate|].
     inversion E; subst. unfold set_version, updatable_slots;
-      cbn [c_slots s_last_discount s_frozen_meta s_enable_updatable s_royalty_at s_legacy_minter s_owner s_status].
+      cbn [c_slots s_last_discount s_frozen_meta s_enable_updatable s_royalty_at s_legacy_minter s_owner s_status s_mintable].
     repeat split; try reflexivity; discriminate.
 Qed.
 
@@ -363,6 +364,15 @@ Proof. repeat split. Qed.
    every contract, from every stored version and identity *)
 Lemma status_preserved : forall c now msg st st' p,
   migrate c now msg st = Ok (st', p) -> s_status (c_slots st') = s_status (c_slots st).
+Proof.
+  intros c now msg st st' p H. destruct (state_preserved _ _ _ _ _ _ H) as [v [_ F]].
+  cbn zeta in F. apply F.
+Qed.
+
+(* the supply counter (what is left to mint) survives every accepted migration: a sale that
+   was closed by BurnRemaining or sold out stays closed *)
+Lemma mintable_preserved : forall c now msg st st' p,
+  migrate c now msg st = Ok (st', p) -> s_mintable (c_slots st') = s_mintable (c_slots st).
 Proof.
   intros c now msg st st' p H. destruct (state_preserved _ _ _ _ _ _ H) as [v [_ F]].
   cbn zeta in F. apply F.
